@@ -326,19 +326,26 @@ def record_run(cfg, seed):
                 td["cost_bsf"].clone(), td["reward"].clone() if "reward" in td.keys() else torch.zeros(B))
 
     log = [snap(None)]
+    crash = None
     with torch.no_grad():
         for t in range(T):
-            if cfg.get("jump_every") and t % cfg["jump_every"] == cfg["jump_every"] - 1:
-                td = env.step_to_solution(td, td["rec_best"])
-                log.append(snap(torch.full((B, 1), -1, dtype=torch.long)))
-                continue
-            if policy is None:
-                env._random_action(td)
-            else:
-                policy(td, env, phase="test", decode_type=decode)
-            a = td["action"].clone()
-            env.step(td)
-            log.append(snap(a))
+            try:
+                if cfg.get("jump_every") and t % cfg["jump_every"] == cfg["jump_every"] - 1:
+                    td = env.step_to_solution(td, td["rec_best"])
+                    log.append(snap(torch.full((B, 1), -1, dtype=torch.long)))
+                    continue
+                if policy is None:
+                    env._random_action(td)
+                else:
+                    policy(td, env, phase="test", decode_type=decode)
+                a = td["action"].clone()
+                env.step(td)
+                log.append(snap(a))
+            except Exception as e:      # what was recorded so far is still validated
+                if crash_site(e) is None:
+                    raise
+                crash = (e, t)
+                break
     ints = lambda x: torch.round(x.double() * S).long().tolist()  # noqa: E731
     cols = [([None] * B if a is None else a.tolist(), rc.tolist(), rb.tolist(), ints(cc), ints(cb), ints(rw))
             for (a, rc, rb, cc, cb, rw) in log]
@@ -351,7 +358,7 @@ def record_run(cfg, seed):
                "ev": [{"a": c[0][b], "rec": c[1][b], "best": c[2][b], "cost": c[3][b], "bsf": c[4][b], "rew": c[5][b]}
                       for c in cols[1:]]}
         recs.append(rec)
-    return recs
+    return recs, crash
 
 
 def crash_site(exc):
@@ -372,19 +379,23 @@ def crash_site(exc):
 
 
 def record_guarded(cfg, seed, viol):
-    """a run whose driver or environment raises inside rl4co is a verdict (the move could not be made), not a crash of the check"""
+    """a run whose driver or environment raises inside rl4co is a verdict (the move could not be made), not a crash of
+    the check; the steps recorded before the exception are validated like any other run"""
     try:
-        return record_run(cfg, seed)
+        recs, crash = record_run(cfg, seed)
     except Exception as e:
-        where = crash_site(e)
-        if where is None:
+        if crash_site(e) is None:
             raise
+        recs, crash = [], (e, -1)
+    if crash:
+        e, t = crash
+        where = crash_site(e)
         viol.append({"property": PID, "env": env_label(cfg), "monitor": "library-raised",
                      "cls": ("batch-of-one " if cfg["rows"] == 1 else "") + where,
                      "inst": {"driver": cfg["driver"], "n": cfg["n"], "k_max": cfg["K"], "batch_size": cfg["rows"],
-                              "exact_instance": cfg["exact"], "seed": seed, "where": where},
+                              "exact_instance": cfg["exact"], "seed": seed, "where": where, "step": t},
                      "actions": [], "detail": "%s: %s" % (type(e).__name__, str(e)[:300])})
-        return []
+    return recs
 
 
 def trace_configs(tier):
